@@ -66,7 +66,11 @@ func num(s string) (interface{}, error) {
 	if strings.ContainsRune(s, '.') {
 		return strconv.ParseFloat(s, 64)
 	}
-	return strconv.ParseInt(s, 10, 64)
+	if n, err := strconv.ParseInt(s, 10, 64); err == nil {
+		return n, nil
+	}
+	// upper half of uint64
+	return strconv.ParseUint(s, 10, 64)
 }
 
 func literal(s string) interface{} {
